@@ -148,7 +148,7 @@ func (x *executor) plan(p *exprgen.Prog) []exprgen.PlanEntry {
 }
 
 func (x *executor) plan1(p *exprgen.Prog) []exprgen.PlanEntry {
-	if names, ok := replayContexts[p]; ok {
+	if names, ok := replayContexts[p]; ok && len(names) > 0 {
 		var out []exprgen.PlanEntry
 		for _, n := range names {
 			if n == "case" {
